@@ -18,21 +18,24 @@ import (
 )
 
 // The address universe, in protocol order: t0 t1 t2 (tcp, HTTP app), m0 (tcp, admin endpoint),
-// u0 u1 (unix, HTTP app), m1 (unix, admin endpoint).
+// p0 p1 (tcp, HTTP app: two consecutive ports, written as one port range "r0" when a server lists
+// both next to each other), u0 u1 (unix, HTTP app), m1 (unix, admin endpoint).
 const (
-	nTCP  = 4
+	nTCP  = 6
 	nUnix = 3
 	nAddr = nTCP + nUnix
 	adm0  = 3 // m0
-	adm1  = 6 // m1
+	rng0  = 4 // p0
+	rng1  = 5 // p1
+	adm1  = 8 // m1
 )
 
 const soReusePort = 0xf // SO_REUSEPORT on linux (all architectures caddy builds listen_unix.go for here)
 
-var addrNames = [nAddr]string{"t0", "t1", "t2", "m0", "u0", "u1", "m1"}
+var addrNames = [nAddr]string{"t0", "t1", "t2", "m0", "p0", "p1", "u0", "u1", "m1"}
 
 // httpAddrs are the addresses the HTTP app may listen on.
-var httpAddrs = []int{0, 1, 2, 4, 5}
+var httpAddrs = []int{0, 1, 2, 4, 5, 6, 7}
 
 func isAdmin(a int) bool { return a == adm0 || a == adm1 }
 
@@ -70,18 +73,8 @@ type env struct {
 // bind it, and since the reservation never listens it never receives a connection: with
 // no caddy listener a connect gets ECONNREFUSED.
 func reservePort() (fd, port int, err error) {
-	fd, err = syscall.Socket(syscall.AF_INET, syscall.SOCK_STREAM|syscall.SOCK_CLOEXEC, 0)
+	fd, err = reservePortAt(0)
 	if err != nil {
-		return -1, 0, err
-	}
-	if err = syscall.SetsockoptInt(fd, syscall.SOL_SOCKET, syscall.SO_REUSEADDR, 1); err == nil {
-		err = syscall.SetsockoptInt(fd, syscall.SOL_SOCKET, soReusePort, 1)
-	}
-	if err == nil {
-		err = syscall.Bind(fd, &syscall.SockaddrInet4{Port: 0, Addr: [4]byte{127, 0, 0, 1}})
-	}
-	if err != nil {
-		syscall.Close(fd)
 		return -1, 0, err
 	}
 	sa, err := syscall.Getsockname(fd)
@@ -90,6 +83,25 @@ func reservePort() (fd, port int, err error) {
 		return -1, 0, err
 	}
 	return fd, sa.(*syscall.SockaddrInet4).Port, nil
+}
+
+// reservePortAt reserves the given port (0: any).
+func reservePortAt(port int) (fd int, err error) {
+	fd, err = syscall.Socket(syscall.AF_INET, syscall.SOCK_STREAM|syscall.SOCK_CLOEXEC, 0)
+	if err != nil {
+		return -1, err
+	}
+	if err = syscall.SetsockoptInt(fd, syscall.SOL_SOCKET, syscall.SO_REUSEADDR, 1); err == nil {
+		err = syscall.SetsockoptInt(fd, syscall.SOL_SOCKET, soReusePort, 1)
+	}
+	if err == nil {
+		err = syscall.Bind(fd, &syscall.SockaddrInet4{Port: port, Addr: [4]byte{127, 0, 0, 1}})
+	}
+	if err != nil {
+		syscall.Close(fd)
+		return -1, err
+	}
+	return fd, nil
 }
 
 func newEnv() (*env, error) {
@@ -102,11 +114,33 @@ func newEnv() (*env, error) {
 	}
 	e := &env{dir: dir}
 	for i := 0; i < nTCP; i++ {
+		if i == rng1 {
+			continue // reserved together with rng0
+		}
 		fd, port, err := reservePort()
 		if err != nil {
 			return nil, fmt.Errorf("reserving a tcp port: %v", err)
 		}
 		e.resv[i], e.ports[i] = fd, port
+		if i == rng0 {
+			// the next port as well: p0 and p1 are the two sockets of one port range
+			ok := false
+			for try := 0; try < 200 && !ok; try++ {
+				if fd1, err := reservePortAt(port + 1); err == nil {
+					e.resv[rng1], e.ports[rng1] = fd1, port+1
+					ok = true
+					break
+				}
+				syscall.Close(fd)
+				if fd, port, err = reservePort(); err != nil {
+					return nil, fmt.Errorf("reserving a tcp port: %v", err)
+				}
+				e.resv[i], e.ports[i] = fd, port
+			}
+			if !ok {
+				return nil, fmt.Errorf("no two consecutive free tcp ports found")
+			}
+		}
 	}
 	for i := 0; i < nUnix; i++ {
 		e.upath[i] = filepath.Join(dir, fmt.Sprintf("u%d.sock", i))
